@@ -232,6 +232,10 @@ pub fn check_call(c: &Call) -> CaseResult {
 #[derive(Serialize, Deserialize, Hash, Debug, Clone)]
 pub struct KeyUse {
     pub d: Hex,
+    /// which constructor: 0 new(bytes), 1 from_hex_string, 2 PKCS#8 DER without public key, 3 PKCS#8 DER with the public key [d]G (or G when
+    /// [d]G is the point at infinity), 4 the same in PEM, 5 PKCS#8 DER with parameters and a compressed public key
+    #[serde(default)]
+    pub via: u8,
 }
 
 /// whatever key the constructor accepts must be usable: sign / decrypt terminate within the retry budget
@@ -239,8 +243,25 @@ fn check_key_use(c: &KeyUse) -> CaseResult {
     let f = fx();
     let d = from_be(&c.d);
     let class = format!("d={}", if d.is_zero() { "0".into() } else if d >= r2::params().n { ">=n".to_string() } else if d == &r2::params().n - 1u32 { "n-1".into() } else { "in-range".to_string() });
-    match outcome(|| Sm2PrivateKey::new(&c.d)) {
-        Outcome::Panic(p) => fail(format!("entry=Sm2PrivateKey::new input={} outcome=panic", class), p),
+    let d32: [u8; 32] = to32(&d);
+    let public = || -> Vec<u8> {
+        let q = r2::g_mul(&(&d % &r2::params().n));
+        r2::encode_uncompressed(&if q.is_none() { r2::g_mul(&BigUint::one()) } else { q })
+    };
+    let (ctor, made): (&str, Outcome<Sm2PrivateKey>) = match c.via % 6 {
+        1 => ("Sm2PrivateKey::from_hex_string", outcome(|| Sm2PrivateKey::from_hex_string(&hex::encode(d32)))),
+        2 => ("Sm2PrivateKey::from_pkcs8_der(no-public-key)", outcome(|| Sm2PrivateKey::from_pkcs8_der(&der::pkcs8(&d32, false, None)).map_err(|e| format!("{:?}", e)))),
+        3 => ("Sm2PrivateKey::from_pkcs8_der(with-public-key)", outcome(|| Sm2PrivateKey::from_pkcs8_der(&der::pkcs8(&d32, false, Some(&public()))).map_err(|e| format!("{:?}", e)))),
+        4 => ("Sm2PrivateKey::from_pkcs8_pem(with-public-key)", outcome(|| Sm2PrivateKey::from_pkcs8_pem(&der::pem("PRIVATE KEY", &der::pkcs8(&d32, false, Some(&public())), "\n")).map_err(|e| format!("{:?}", e)))),
+        5 => ("Sm2PrivateKey::from_pkcs8_der(params+compressed-public-key)", outcome(|| {
+            let q = r2::decode_point(&public());
+            Sm2PrivateKey::from_pkcs8_der(&der::pkcs8(&d32, true, Some(&r2::encode_compressed(&q.unwrap())))).map_err(|e| format!("{:?}", e))
+        })),
+        _ => ("Sm2PrivateKey::new", outcome(|| Sm2PrivateKey::new(&c.d).map_err(|e| format!("{:?}", e)))),
+    };
+    let class = format!("{}/{}", class, ctor);
+    match made {
+        Outcome::Panic(p) => fail(format!("entry={} input={} outcome=panic", ctor, class), p),
         Outcome::Err(_) => pass(true, format!("{}/rejected", class)),
         Outcome::Ok(sk) => {
             let cands: Vec<[u8; 32]> = (0..24u64).map(|i| to32(&(from_be(&expand_bytes(0xbeef + i, 32)) % (&r2::params().n - 1u32) + 1u32))).collect();
@@ -296,7 +317,7 @@ pub fn valid_artefact(entry: &str) -> Option<Vec<u8>> {
 pub fn run(ctx: &Ctx) {
     ctx.set_rule(
         "a case is (entry point, byte string): for each of the 42 entry points every length 0..=200 x {0x00.., 0xFF.., pseudo-random}; every truncation and every single-byte corruption (xor 0x01, xor 0x80, set 0x00, set 0xFF) of a valid artefact for the 19 entries that \
-         have one (signature, four ciphertext framings, ASN.1 ciphertext, SEC1/hex/DER/PEM keys, SM9 ciphertext, (h,S), exchange points, an SM4-CTR call whose counter wraps); SM4 mode calls with IVs ending in 0..16 bytes 0xFF; proptest byte strings up to 600 bytes; SM2 private keys {0, 1, 2, n-3, n-2, n-1, n, n+1, p, 2^255, 2^256-1}: whatever the constructor accepts must sign, \
+         have one (signature, four ciphertext framings, ASN.1 ciphertext, SEC1/hex/DER/PEM keys, SM9 ciphertext, (h,S), exchange points, an SM4-CTR call whose counter wraps); SM4 mode calls with IVs ending in 0..16 bytes 0xFF; proptest byte strings up to 600 bytes; SM2 private keys {0, 1, 2, n-3, n-2, n-1, n, n+1, p, 2^255, 2^256-1} offered to every private-key constructor (bytes, hex, PKCS#8 DER/PEM with and without embedded public key): whatever a constructor accepts must sign, \
          decrypt and encrypt within a retry budget of 24 candidates (RNG hook). Oracle: outcome in {Ok, Err}; a panic (incl. arithmetic overflow, index, unwrap) or an exhausted retry budget is a violation; where the entry has an unambiguous validity rule (lengths, decodability) the error channel must report it. \
          Non-trivial: every case (all inputs are untrusted bytes).",
     );
@@ -409,11 +430,11 @@ pub fn run(ctx: &Ctx) {
         v
     }, check_call);
 
-    ctx.exhaustive("sm2_boundary_private_keys", "d in {0, 1, 2, n-3, n-2, n-1, n, n+1, p, 2^255, 2^256-1}: constructor outcome, then sign / decrypt / encrypt under a retry budget", || {
+    ctx.exhaustive("sm2_boundary_private_keys", "d in {0, 1, 2, n-3, n-2, n-1, n, n+1, p, 2^255, 2^256-1} through six constructors (bytes, hex, PKCS#8 DER without / with public key, PEM, DER with parameters and a compressed public key): whatever a constructor accepts must sign / decrypt / encrypt under a retry budget", || {
         let n = &r2::params().n;
         [BigUint::zero(), BigUint::one(), BigUint::from(2u32), n - 3u32, n - 2u32, n - 1u32, n.clone(), n + 1u32, r2::params().p.clone(), BigUint::one() << 255, (BigUint::one() << 256) - 1u32]
             .iter()
-            .map(|d| KeyUse { d: Hex(to32(d).to_vec()) })
-            .collect()
+            .flat_map(|d| (0..6u8).map(move |via| KeyUse { d: Hex(to32(d).to_vec()), via }))
+            .collect::<Vec<_>>()
     }, check_key_use);
 }
